@@ -299,7 +299,10 @@ class Gen:
                 out.append(pad + "{ false:")
                 out.append(pad + "  ~ temp wt%d = 0" % self.wt_n)
                 out.append(pad + "}")
-                out.append(pad + "%s {wt%d} %s" % (self.word(), self.wt_n, self.word()))
+                # (the marker word wrn<N> says, to whoever reads the delivered line, that the warning about wt<N> is due)
+                out.append(pad + "wrn%d {wt%d} %s" % (self.wt_n, self.wt_n, self.word()))
+                if r.random() < 0.4:
+                    out.append(pad + "<> %s" % self.word())       # the line end is taken back by glue
             elif c < 0.86 and self.w["retype"] and r.random() < self.w["retype"] and not in_function:
                 # a value of another type that is numerically equal: int <-> float <-> bool
                 k = r.random()
@@ -371,10 +374,10 @@ class Gen:
                         out.append(pad2 + self.word())
                     elif c3 < 0.7:
                         out.append(pad2 + "~ dv = 0")
-                        out.append(pad2 + "%s {wt%d}" % (self.word(), self.wt_n))
+                        out.append(pad2 + "wrn%d {wt%d}" % (self.wt_n, self.wt_n))
                         out.append(pad2 + "-> dv")
                     else:
-                        out.append(pad2 + "%s {wt%d}" % (self.word(), self.wt_n))
+                        out.append(pad2 + "wrn%d {wt%d}" % (self.wt_n, self.wt_n))
                         out.append(pad2 + "->->")
                 elif r.random() < 0.5:
                     out.append(pad2 + "~ dv = 0")
